@@ -132,6 +132,10 @@ def taggedLoop : Nat → Cursor → List Opt → Nat → Out (List Opt × Nat)
 def parseTagged (c : Cursor) : Out (List Opt × Nat) :=
   if c.toBool then taggedLoop (c.size / 2 + 1) c [] 0 else pure ([], 0)
 
+/-- only the management subclasses call `parse_tagged_parameters` -/
+def parseOpts (tagged : Bool) (c : Cursor) : Out (List Opt × Nat) :=
+  if tagged then parseTagged c else pure ([], 0)
+
 /-- the parsing constructor of class `cls` -/
 def parseWith (cls : String) (lay : Layout) (b : Bytes) : Out (Dot11 × Inner) := do
   let hdr ← parseBase b
@@ -140,7 +144,7 @@ def parseWith (cls : String) (lay : Layout) (b : Bytes) : Out (Dot11 × Inner) :
   let c := Cursor.ofBytes b
   let c ← c.skip off
   let (body, c) ← readChunks c lay.body
-  let (opts, osz) ← if lay.tagged then parseTagged c else pure ([], 0)
+  let (opts, osz) ← parseOpts lay.tagged c
   let d : Dot11 := ⟨cls, lay, hdr, ext, a4, body, opts, osz⟩
   if lay.payload then
     if c.toBool then do
@@ -269,8 +273,10 @@ def fields (d : Dot11) : Fields :=
 
 /-! ### setters -/
 
-/-- overwrite `bs[i ..]` with `v` (struct member assignment; `i + v.length ≤ bs.length` by construction) -/
-def patch (bs : Bytes) (i : Nat) (v : Bytes) : Bytes := bs.take i ++ v ++ bs.drop (i + v.length)
+/-- overwrite `bs[i ..]` with `v`: assignment to a member of a packed struct.  Every call site passes a member's
+    offset and size, so `i + v.length ≤ bs.length`; outside that the struct is left alone (a struct never grows). -/
+def patch (bs : Bytes) (i : Nat) (v : Bytes) : Bytes :=
+  if i + v.length ≤ bs.length then bs.take i ++ v ++ bs.drop (i + v.length) else bs
 
 /-- assign a bit-field of `width` bits at bit `shift` of the little-endian integer of `n` bytes at offset `i` -/
 def setBits (bs : Bytes) (i n shift width v : Nat) : Bytes :=
